@@ -113,9 +113,9 @@ def plan(tier, seed):
     q = tier == "quick"
     shards = []
     # cost per case (one core): fn ~2 ms, ds ~30 ms, limit ~13 ms, exhaustive array 5-9 ms
-    shards += _split("fn", 24000 if q else 320000, 8 if q else 48)
-    shards += _split("ds", 2400 if q else 20000, 8 if q else 48)
-    shards += _split("limit", 1600 if q else 20000, 4 if q else 16)
+    shards += _split("fn", 16000 if q else 320000, 8 if q else 48)
+    shards += _split("ds", 1600 if q else 20000, 8 if q else 48)
+    shards += _split("limit", 1200 if q else 20000, 4 if q else 16)
     e = EXH[tier]
     n_rand = sum(len(G.ALPHA1) ** n for n in range(e["rand_len"] + 1))
     shards += _split("exh_rand", n_rand, 1 if q else 8, max_len=e["rand_len"])
